@@ -24,7 +24,7 @@ from checks import c01
 
 PROP = "C02"
 JVM = ["-Xss1g"]
-MODS = ("Encodings.tla", "Thrift.tla", "Snappy.tla", "FileLayout.tla", "LayoutMon.tla", "LayoutMon.cfg")
+MODS = ("Encodings.tla", "Thrift.tla", "Snappy.tla", "Order.tla", "FileLayout.tla", "LayoutMon.tla", "LayoutMon.cfg")
 
 
 def execute(vh, wd, scenarios, seed, name):
